@@ -1,7 +1,1781 @@
-use serde_json::{json, Value as J};
-pub fn op_types(_case: &J) -> J {
-  json!({"harness_error": "not implemented"})
+//! C16 — type-lattice walker (DESIGN.md §3 C16).
+//!
+//! Builds type universes on the REAL `dmntk_feel::FeelType` and observes the real
+//! `FeelType::is_equivalent`, `FeelType::is_conformant`, `FeelType::coerced` and `Value::type_of`.
+//! Every ordered pair of a universe is observed by real calls into two bit matrices; the laws of
+//! the property statement are then decided over those observations (all pairs, and all triples by
+//! bit-row inclusion), next to an INDEPENDENT reference of equivalence / conformance
+//! (`mod reference`, written from DMN 1.3 §10.3.2.9, never calling the code under test).
+//!
+//! ops:
+//!   {"op":"types","mode":"universe", base?, depth?, outer_entries?, outer_params?, rows?, direct_triples?, seed?}
+//!   {"op":"types","mode":"sample", seed, size, direct_triples?}          depth-2 sampled families
+//!   {"op":"types","mode":"probe", types:[<type json>...]}                  replay of explicit types
+//!   {"op":"coerce","mode":"universe", rows?}                               values x targets, direct `coerced` calls
+//!   {"op":"coerce","mode":"feel", rows?, target_stride?, seed?}           the same through `(function(x: T) x)(v)`
+//!   {"op":"coerce","mode":"probe", value:<value description>, target:<type json>}   replay
+//! value description: {"of":<type json>, "wrap":k | "twice":true | "empty":true} | {"lit":<value json>}; optional "feel": text
+//!
+//! Violations are returned per CLASS KEY (`law:shape...`, usable as a narrow signature) with a
+//! count and the first few counterexamples.
+
+use dmntk_feel::context::FeelContext;
+use dmntk_feel::values::{Value, Values};
+use dmntk_feel::{FeelType, FunctionBody, Name, Scope};
+use serde_json::{json, Map, Value as J};
+use std::collections::{BTreeMap, BTreeSet};
+use std::sync::Arc;
+
+// =================================================================================================
+// Independent reference (DMN 1.3 §10.3.2.9.1 equivalence, §10.3.2.9.2 conformance).
+// Only pattern-matches on the data type; calls nothing of the code under test.
+// =================================================================================================
+mod reference {
+  use dmntk_feel::FeelType as T;
+
+  /// Three-valued verdict: `Unspec` marks the one rule DMN has but the property statement does
+  /// not spell out (a context type with MORE entries conforms to one with fewer); DMN says yes.
+  #[derive(Debug, Clone, Copy, PartialEq, Eq)]
+  pub enum V3 {
+    Yes,
+    No,
+    Unspec,
+  }
+
+  fn tag(t: &T) -> u8 {
+    match t {
+      T::Any => 0,
+      T::Null => 1,
+      T::Boolean => 2,
+      T::Number => 3,
+      T::String => 4,
+      T::Date => 5,
+      T::Time => 6,
+      T::DateTime => 7,
+      T::DaysAndTimeDuration => 8,
+      T::YearsAndMonthsDuration => 9,
+      T::List(_) => 10,
+      T::Range(_) => 11,
+      T::Context(_) => 12,
+      T::Function(_, _) => 13,
+    }
+  }
+
+  /// T ≡ S
+  pub fn equiv(a: &T, b: &T) -> bool {
+    match (a, b) {
+      (T::List(x), T::List(y)) => equiv(x, y),
+      (T::Range(x), T::Range(y)) => equiv(x, y),
+      (T::Context(ma), T::Context(mb)) => {
+        if ma.len() != mb.len() {
+          return false;
+        }
+        for (k, ta) in ma.iter() {
+          match mb.iter().find(|(kb, _)| kb.to_string() == k.to_string()) {
+            Some((_, tb)) => {
+              if !equiv(ta, tb) {
+                return false;
+              }
+            }
+            None => return false,
+          }
+        }
+        true
+      }
+      (T::Function(pa, ra), T::Function(pb, rb)) => {
+        if pa.len() != pb.len() {
+          return false;
+        }
+        for k in 0..pa.len() {
+          if !equiv(&pa[k], &pb[k]) {
+            return false;
+          }
+        }
+        equiv(ra, rb)
+      }
+      _ => tag(a) < 10 && tag(a) == tag(b),
+    }
+  }
+
+  fn and3(acc: V3, x: V3) -> V3 {
+    match (acc, x) {
+      (V3::No, _) | (_, V3::No) => V3::No,
+      (V3::Unspec, _) | (_, V3::Unspec) => V3::Unspec,
+      _ => V3::Yes,
+    }
+  }
+
+  /// T <: S
+  pub fn conf(a: &T, b: &T) -> V3 {
+    if equiv(a, b) {
+      return V3::Yes;
+    }
+    if let T::Null = a {
+      return V3::Yes;
+    }
+    if let T::Any = b {
+      return V3::Yes;
+    }
+    match (a, b) {
+      (T::List(x), T::List(y)) => conf(x, y),
+      (T::Range(x), T::Range(y)) => conf(x, y),
+      (T::Context(ma), T::Context(mb)) => {
+        let mut acc = V3::Yes;
+        for (k, tb) in mb.iter() {
+          match ma.iter().find(|(ka, _)| ka.to_string() == k.to_string()) {
+            Some((_, ta)) => acc = and3(acc, conf(ta, tb)),
+            None => return V3::No,
+          }
+        }
+        if acc == V3::Yes && ma.len() > mb.len() {
+          acc = V3::Unspec;
+        }
+        acc
+      }
+      (T::Function(pa, ra), T::Function(pb, rb)) => {
+        if pa.len() != pb.len() {
+          return V3::No;
+        }
+        let mut acc = V3::Yes;
+        for k in 0..pa.len() {
+          acc = and3(acc, conf(&pb[k], &pa[k])); // contravariant
+        }
+        and3(acc, conf(ra, rb)) // covariant
+      }
+      _ => V3::No,
+    }
+  }
 }
-pub fn op_coerce(_case: &J) -> J {
-  json!({"harness_error": "not implemented"})
+
+use reference::V3;
+
+// =================================================================================================
+// Universe construction on the real FeelType
+// =================================================================================================
+
+const SIMPLE_NAMES: [&str; 10] = [
+  "Any",
+  "Null",
+  "boolean",
+  "number",
+  "string",
+  "date",
+  "time",
+  "date and time",
+  "days and time duration",
+  "years and months duration",
+];
+
+fn simple_by_name(s: &str) -> Option<FeelType> {
+  Some(match s {
+    "Any" => FeelType::Any,
+    "Null" => FeelType::Null,
+    "boolean" => FeelType::Boolean,
+    "number" => FeelType::Number,
+    "string" => FeelType::String,
+    "date" => FeelType::Date,
+    "time" => FeelType::Time,
+    "date and time" => FeelType::DateTime,
+    "days and time duration" => FeelType::DaysAndTimeDuration,
+    "years and months duration" => FeelType::YearsAndMonthsDuration,
+    _ => return None,
+  })
+}
+
+fn simple_name(t: &FeelType) -> Option<&'static str> {
+  Some(match t {
+    FeelType::Any => "Any",
+    FeelType::Null => "Null",
+    FeelType::Boolean => "boolean",
+    FeelType::Number => "number",
+    FeelType::String => "string",
+    FeelType::Date => "date",
+    FeelType::Time => "time",
+    FeelType::DateTime => "date and time",
+    FeelType::DaysAndTimeDuration => "days and time duration",
+    FeelType::YearsAndMonthsDuration => "years and months duration",
+    _ => return None,
+  })
+}
+
+fn name_a() -> Name {
+  Name::from("a")
+}
+fn name_b() -> Name {
+  Name::from("b")
+}
+
+fn ctx_type(entries: Vec<(Name, FeelType)>) -> FeelType {
+  let mut m = BTreeMap::new();
+  for (k, v) in entries {
+    m.insert(k, v);
+  }
+  FeelType::Context(m)
+}
+
+/// All types built by ONE constructor application over `comps`
+/// (list, range, context with 0..max_entries entries over {a, b}, function with 0..max_params parameters).
+fn constructed(comps: &[FeelType], max_entries: usize, max_params: usize) -> Vec<FeelType> {
+  let mut out = vec![];
+  for c in comps {
+    out.push(FeelType::List(Box::new(c.clone())));
+  }
+  for c in comps {
+    out.push(FeelType::Range(Box::new(c.clone())));
+  }
+  out.push(ctx_type(vec![]));
+  if max_entries >= 1 {
+    for c in comps {
+      out.push(ctx_type(vec![(name_a(), c.clone())]));
+    }
+    for c in comps {
+      out.push(ctx_type(vec![(name_b(), c.clone())]));
+    }
+  }
+  if max_entries >= 2 {
+    for c1 in comps {
+      for c2 in comps {
+        out.push(ctx_type(vec![(name_a(), c1.clone()), (name_b(), c2.clone())]));
+      }
+    }
+  }
+  for r in comps {
+    out.push(FeelType::Function(vec![], Box::new(r.clone())));
+  }
+  if max_params >= 1 {
+    for p in comps {
+      for r in comps {
+        out.push(FeelType::Function(vec![p.clone()], Box::new(r.clone())));
+      }
+    }
+  }
+  if max_params >= 2 {
+    for p1 in comps {
+      for p2 in comps {
+        for r in comps {
+          out.push(FeelType::Function(vec![p1.clone(), p2.clone()], Box::new(r.clone())));
+        }
+      }
+    }
+  }
+  out
+}
+
+fn base_types(case: &J) -> Result<Vec<FeelType>, String> {
+  match case.get("base").and_then(|v| v.as_array()) {
+    None => Ok(SIMPLE_NAMES.iter().map(|s| simple_by_name(s).unwrap()).collect()),
+    Some(names) => {
+      let mut out = vec![];
+      for n in names {
+        let s = n.as_str().unwrap_or("");
+        out.push(simple_by_name(s).ok_or_else(|| format!("unknown simple type '{}'", s))?);
+      }
+      Ok(out)
+    }
+  }
+}
+
+/// depth 1: base ∪ constructed(base) (always 0..2 entries, 0..2 parameters);
+/// depth 2: base ∪ constructed(depth-1 universe) with the outer limits given.
+fn build_universe(case: &J) -> Result<Vec<FeelType>, String> {
+  let base = base_types(case)?;
+  let depth = case.get("depth").and_then(|v| v.as_u64()).unwrap_or(1);
+  let oe = case.get("outer_entries").and_then(|v| v.as_u64()).unwrap_or(2) as usize;
+  let op = case.get("outer_params").and_then(|v| v.as_u64()).unwrap_or(2) as usize;
+  let mut d1 = base.clone();
+  d1.extend(constructed(&base, 2, 2));
+  if depth <= 1 {
+    return Ok(d1);
+  }
+  let mut d2 = base;
+  d2.extend(constructed(&d1, oe, op));
+  Ok(d2)
+}
+
+// ---------------------------------------------------------------------------------------------
+// type <-> JSON (replay / counterexamples)
+// ---------------------------------------------------------------------------------------------
+
+fn type_to_json(t: &FeelType) -> J {
+  match t {
+    FeelType::List(x) => json!({ "list": type_to_json(x) }),
+    FeelType::Range(x) => json!({ "range": type_to_json(x) }),
+    FeelType::Context(m) => {
+      let entries: Vec<J> = m.iter().map(|(k, v)| json!([k.to_string(), type_to_json(v)])).collect();
+      json!({ "context": entries })
+    }
+    FeelType::Function(ps, r) => {
+      let params: Vec<J> = ps.iter().map(type_to_json).collect();
+      json!({"function": [params, type_to_json(r)]})
+    }
+    other => json!(simple_name(other).unwrap_or("?")),
+  }
+}
+
+fn type_from_json(j: &J) -> Result<FeelType, String> {
+  match j {
+    J::String(s) => simple_by_name(s).ok_or_else(|| format!("unknown simple type '{}'", s)),
+    J::Object(m) => {
+      if let Some(x) = m.get("list") {
+        return Ok(FeelType::List(Box::new(type_from_json(x)?)));
+      }
+      if let Some(x) = m.get("range") {
+        return Ok(FeelType::Range(Box::new(type_from_json(x)?)));
+      }
+      if let Some(J::Array(entries)) = m.get("context") {
+        let mut out = vec![];
+        for e in entries {
+          let k = e.get(0).and_then(|v| v.as_str()).ok_or("bad context entry")?;
+          out.push((Name::from(k), type_from_json(e.get(1).ok_or("bad context entry")?)?));
+        }
+        return Ok(ctx_type(out));
+      }
+      if let Some(J::Array(f)) = m.get("function") {
+        if f.len() == 2 {
+          let mut ps = vec![];
+          for p in f[0].as_array().ok_or("bad function params")? {
+            ps.push(type_from_json(p)?);
+          }
+          return Ok(FeelType::Function(ps, Box::new(type_from_json(&f[1])?)));
+        }
+      }
+      Err(format!("bad type json {}", j))
+    }
+    _ => Err(format!("bad type json {}", j)),
+  }
+}
+
+/// Shape class of a type: simple types by name, constructors by constructor and arity.
+fn shape(t: &FeelType) -> String {
+  match t {
+    FeelType::List(_) => "list".to_string(),
+    FeelType::Range(_) => "range".to_string(),
+    FeelType::Context(m) => format!("context-{}-entries", m.len()),
+    FeelType::Function(ps, _) => format!("function-{}-params", ps.len()),
+    other => simple_name(other).unwrap_or("?").replace(' ', "-"),
+  }
+}
+
+fn depth_of(t: &FeelType) -> usize {
+  match t {
+    FeelType::List(x) | FeelType::Range(x) => 1 + depth_of(x),
+    FeelType::Context(m) => 1 + m.values().map(depth_of).max().unwrap_or(0),
+    FeelType::Function(ps, r) => 1 + ps.iter().map(depth_of).max().unwrap_or(0).max(depth_of(r)),
+    _ => 0,
+  }
+}
+
+// =================================================================================================
+// Deterministic RNG (splitmix64)
+// =================================================================================================
+struct Rng(u64);
+impl Rng {
+  fn new(seed: u64) -> Self {
+    Rng(seed.wrapping_mul(0x9E3779B97F4A7C15).wrapping_add(0x1234_5678_9ABC_DEF1))
+  }
+  fn next(&mut self) -> u64 {
+    self.0 = self.0.wrapping_add(0x9E3779B97F4A7C15);
+    let mut z = self.0;
+    z = (z ^ (z >> 30)).wrapping_mul(0xBF58476D1CE4E5B9);
+    z = (z ^ (z >> 27)).wrapping_mul(0x94D049BB133111EB);
+    z ^ (z >> 31)
+  }
+  fn below(&mut self, n: usize) -> usize {
+    if n == 0 {
+      0
+    } else {
+      (self.next() % (n as u64)) as usize
+    }
+  }
+  fn chance(&mut self, percent: u64) -> bool {
+    self.next() % 100 < percent
+  }
+}
+
+// =================================================================================================
+// Observation matrices and the law accumulator
+// =================================================================================================
+struct Matrix {
+  w: usize,
+  bits: Vec<u64>,
+}
+impl Matrix {
+  fn new(n: usize) -> Self {
+    let w = (n + 63) / 64;
+    Matrix { w, bits: vec![0u64; w * n] }
+  }
+  fn set(&mut self, i: usize, j: usize) {
+    self.bits[i * self.w + j / 64] |= 1u64 << (j % 64);
+  }
+  fn get(&self, i: usize, j: usize) -> bool {
+    self.bits[i * self.w + j / 64] >> (j % 64) & 1 == 1
+  }
+  fn row(&self, i: usize) -> &[u64] {
+    &self.bits[i * self.w..(i + 1) * self.w]
+  }
+}
+
+const MAX_EXAMPLES: usize = 3;
+
+#[derive(Default)]
+struct Acc {
+  /// law name -> number of (non-vacuous) instances checked
+  laws: BTreeMap<&'static str, u64>,
+  /// class key -> (count, first examples)
+  viol: BTreeMap<String, (u64, Vec<J>)>,
+  /// class key -> (count, first examples): oracle cannot decide from the property statement
+  undecided: BTreeMap<String, (u64, Vec<J>)>,
+  calls: u64,
+}
+impl Acc {
+  fn law(&mut self, law: &'static str) {
+    *self.laws.entry(law).or_insert(0) += 1;
+  }
+  fn law_n(&mut self, law: &'static str, n: u64) {
+    *self.laws.entry(law).or_insert(0) += n;
+  }
+  fn violation(&mut self, key: String, types: &[&FeelType], what: String) {
+    let e = self.viol.entry(key).or_insert((0, vec![]));
+    e.0 += 1;
+    let plain = |s: &str| !s.contains("Null") && !s.contains("Any");
+    let texts: Vec<String> = types.iter().map(|t| t.to_string()).collect();
+    // keep the first few examples; the first slot prefers one without Null / Any (easier to read)
+    let upgrade = e.1.len() == MAX_EXAMPLES && texts.iter().all(|s| plain(s)) && !e.1[0]["text"].as_array().map(|a| a.iter().all(|s| plain(s.as_str().unwrap_or("")))).unwrap_or(true);
+    if e.1.len() < MAX_EXAMPLES || upgrade {
+      let ex = json!({
+        "types": types.iter().map(|t| type_to_json(t)).collect::<Vec<J>>(),
+        "text": texts,
+        "what": what,
+      });
+      if upgrade {
+        e.1[0] = ex;
+      } else {
+        e.1.push(ex);
+      }
+    }
+  }
+  fn undecided(&mut self, key: String, types: &[&FeelType], what: String) {
+    let e = self.undecided.entry(key).or_insert((0, vec![]));
+    e.0 += 1;
+    if e.1.len() < MAX_EXAMPLES {
+      e.1.push(json!({
+        "types": types.iter().map(|t| type_to_json(t)).collect::<Vec<J>>(),
+        "text": types.iter().map(|t| t.to_string()).collect::<Vec<String>>(),
+        "what": what,
+      }));
+    }
+  }
+  fn to_json(&self, out: &mut Map<String, J>) {
+    let laws: Map<String, J> = self.laws.iter().map(|(k, v)| (k.to_string(), json!(v))).collect();
+    out.insert("laws".to_string(), J::Object(laws));
+    let viol: Map<String, J> = self.viol.iter().map(|(k, (n, ex))| (k.clone(), json!({"n": n, "ex": ex}))).collect();
+    out.insert("viol".to_string(), J::Object(viol));
+    let und: Map<String, J> = self.undecided.iter().map(|(k, (n, ex))| (k.clone(), json!({"n": n, "ex": ex}))).collect();
+    out.insert("undecided".to_string(), J::Object(und));
+    out.insert("calls".to_string(), json!(self.calls));
+  }
+}
+
+// ---------------------------------------------------------------------------------------------
+// Blame localisation for reference disagreements: descend while a component pair disagrees too,
+// so that one defect keeps one class key whatever it is nested in.
+// ---------------------------------------------------------------------------------------------
+
+fn blame_equiv<'a>(a: &'a FeelType, b: &'a FeelType) -> (&'a FeelType, &'a FeelType) {
+  let mut pairs: Vec<(&FeelType, &FeelType)> = vec![];
+  match (a, b) {
+    (FeelType::List(x), FeelType::List(y)) | (FeelType::Range(x), FeelType::Range(y)) => pairs.push((x, y)),
+    (FeelType::Context(ma), FeelType::Context(mb)) => {
+      for (k, ta) in ma {
+        if let Some(tb) = mb.get(k) {
+          pairs.push((ta, tb));
+        }
+      }
+    }
+    (FeelType::Function(pa, ra), FeelType::Function(pb, rb)) => {
+      if pa.len() == pb.len() {
+        for k in 0..pa.len() {
+          pairs.push((&pa[k], &pb[k]));
+        }
+      }
+      pairs.push((ra, rb));
+    }
+    _ => {}
+  }
+  for (x, y) in pairs {
+    if x.is_equivalent(y) != reference::equiv(x, y) {
+      return blame_equiv(x, y);
+    }
+  }
+  (a, b)
+}
+
+enum Blame<'a> {
+  /// code and reference (Yes/No) disagree on this pair and on none of its component pairs
+  Strict(&'a FeelType, &'a FeelType),
+  /// the code rejects a pair whose only obstacle is extra context entries on the left
+  Width(&'a FeelType, &'a FeelType),
+  /// nothing to blame (agreement)
+  None,
+}
+
+fn blame_conf<'a>(a: &'a FeelType, b: &'a FeelType) -> Blame<'a> {
+  let code = a.is_conformant(b);
+  let r = reference::conf(a, b);
+  let disagree_strict = (r == V3::Yes && !code) || (r == V3::No && code);
+  let disagree_width = r == V3::Unspec && !code;
+  if !disagree_strict && !disagree_width {
+    return Blame::None;
+  }
+  let mut pairs: Vec<(&FeelType, &FeelType)> = vec![];
+  match (a, b) {
+    (FeelType::List(x), FeelType::List(y)) | (FeelType::Range(x), FeelType::Range(y)) => pairs.push((x, y)),
+    (FeelType::Context(ma), FeelType::Context(mb)) => {
+      for (k, tb) in mb {
+        if let Some(ta) = ma.get(k) {
+          pairs.push((ta, tb));
+        }
+      }
+    }
+    (FeelType::Function(pa, ra), FeelType::Function(pb, rb)) => {
+      if pa.len() == pb.len() {
+        for k in 0..pa.len() {
+          pairs.push((&pb[k], &pa[k]));
+        }
+      }
+      pairs.push((ra, rb));
+    }
+    _ => {}
+  }
+  let mut width: Option<Blame> = None;
+  for (x, y) in pairs {
+    match blame_conf(x, y) {
+      Blame::Strict(p, q) => return Blame::Strict(p, q),
+      Blame::Width(p, q) => {
+        if width.is_none() {
+          width = Some(Blame::Width(p, q));
+        }
+      }
+      Blame::None => {}
+    }
+  }
+  if let Some(w) = width {
+    return w;
+  }
+  if disagree_strict {
+    Blame::Strict(a, b)
+  } else {
+    Blame::Width(a, b)
+  }
+}
+
+// =================================================================================================
+// The walker
+// =================================================================================================
+
+struct Walk {
+  n: usize,
+  duplicate_calls: u64,
+  rows: (usize, usize),
+  pairs: u64,
+  triples_matrix_covered: u128,
+  triples_matrix_nonvacuous: u64,
+  triples_direct: u64,
+  conf_true: u64,
+  equiv_true: u64,
+  shape_pairs: BTreeSet<String>,
+  shape_triples_nonvacuous: BTreeSet<String>,
+}
+
+fn first_bit_not_in(sub: &[u64], sup: &[u64]) -> Option<usize> {
+  for (w, (a, b)) in sub.iter().zip(sup.iter()).enumerate() {
+    let d = a & !b;
+    if d != 0 {
+      return Some(w * 64 + d.trailing_zeros() as usize);
+    }
+  }
+  None
+}
+
+fn walk(u: &[FeelType], rows: (usize, usize), direct_triples: usize, seed: u64, acc: &mut Acc) -> Walk {
+  let n = u.len();
+  let (lo, hi) = (rows.0.min(n), rows.1.min(n));
+  // ---- observe every ordered pair by real calls ----
+  let mut c = Matrix::new(n);
+  let mut e = Matrix::new(n);
+  for i in 0..n {
+    for j in 0..n {
+      if u[i].is_conformant(&u[j]) {
+        c.set(i, j);
+      }
+      if u[i].is_equivalent(&u[j]) {
+        e.set(i, j);
+      }
+    }
+  }
+  // calls attributed to this shard: the rows it owns (the rest of the matrix is recomputed by every shard
+  // only to decide the triples; those duplicate observations are reported separately)
+  acc.calls += 2 * ((hi - lo) as u64) * (n as u64);
+  let duplicate_calls = 2 * ((n - (hi - lo)) as u64) * (n as u64);
+  let any = FeelType::Any;
+  let null = FeelType::Null;
+  let shapes: Vec<String> = u.iter().map(shape).collect();
+  let texts: Vec<String> = u.iter().map(|t| t.to_string()).collect();
+  let mut w = Walk {
+    n,
+    duplicate_calls,
+    rows: (lo, hi),
+    pairs: 0,
+    triples_matrix_covered: 0,
+    triples_matrix_nonvacuous: 0,
+    triples_direct: 0,
+    conf_true: 0,
+    equiv_true: 0,
+    shape_pairs: BTreeSet::new(),
+    shape_triples_nonvacuous: BTreeSet::new(),
+  };
+  for i in lo..hi {
+    let t = &u[i];
+    // ---- unary laws ----
+    acc.law("conf-reflexive");
+    if !t.is_conformant(t) {
+      acc.violation(format!("conf-not-reflexive:{}", shapes[i]), &[t], "T does not conform to itself".into());
+    }
+    acc.law("equiv-reflexive");
+    if !t.is_equivalent(t) {
+      acc.violation(format!("equiv-not-reflexive:{}", shapes[i]), &[t], "T is not equivalent to itself".into());
+    }
+    acc.law("conforms-to-Any");
+    if !t.is_conformant(&any) {
+      acc.violation(format!("not-conformant-to-Any:{}", shapes[i]), &[t, &any], "T does not conform to Any".into());
+    }
+    acc.law("Null-conforms");
+    if !null.is_conformant(t) {
+      acc.violation(format!("Null-not-conformant:{}", shapes[i]), &[&null, t], "Null does not conform to T".into());
+    }
+    acc.calls += 4;
+    // ---- binary laws ----
+    for j in 0..n {
+      let s = &u[j];
+      w.pairs += 1;
+      let cij = c.get(i, j);
+      let eij = e.get(i, j);
+      if cij {
+        w.conf_true += 1;
+      }
+      if eij {
+        w.equiv_true += 1;
+      }
+      if w.shape_pairs.len() < 4096 {
+        let key = format!("{}~{}", shapes[i], shapes[j]);
+        if !w.shape_pairs.contains(&key) {
+          w.shape_pairs.insert(key);
+        }
+      }
+      // symmetry of equivalence
+      acc.law("equiv-symmetric");
+      if eij != e.get(j, i) {
+        acc.violation(
+          format!("equiv-asymmetry:lhs={},rhs={}", shapes[i], shapes[j]),
+          &[t, s],
+          format!("is_equivalent(T,S)={} but is_equivalent(S,T)={}", eij, e.get(j, i)),
+        );
+      }
+      // equivalent => mutually conformant
+      if eij {
+        acc.law("equiv-implies-mutual-conformance");
+        if !cij || !c.get(j, i) {
+          acc.violation(
+            format!("equiv-without-mutual-conformance:lhs={},rhs={}", shapes[i], shapes[j]),
+            &[t, s],
+            format!("equivalent but is_conformant(T,S)={} is_conformant(S,T)={}", cij, c.get(j, i)),
+          );
+        }
+      }
+      // reference: equivalence
+      acc.law("reference-equivalence");
+      let re = reference::equiv(t, s);
+      if re != eij {
+        let (x, y) = blame_equiv(t, s);
+        let dir = if x.is_equivalent(y) { "accepts" } else { "rejects" };
+        acc.violation(
+          format!("ref-equiv-mismatch:{}:lhs={},rhs={}", dir, shape(x), shape(y)),
+          &[x, y],
+          format!("is_equivalent={} but DMN 10.3.2.9.1 says {} (seen inside {} vs {})", x.is_equivalent(y), reference::equiv(x, y), texts[i], texts[j]),
+        );
+      }
+      // reference: conformance
+      acc.law("reference-conformance");
+      match blame_conf(t, s) {
+        Blame::None => {}
+        Blame::Strict(x, y) => {
+          let code = x.is_conformant(y);
+          let dir = if code { "accepts" } else { "rejects" };
+          acc.violation(
+            format!("ref-conf-mismatch:{}:lhs={},rhs={}", dir, shape(x), shape(y)),
+            &[x, y],
+            format!("is_conformant={} but DMN 10.3.2.9.2 says {:?} (seen inside {} vs {})", code, reference::conf(x, y), texts[i], texts[j]),
+          );
+        }
+        Blame::Width(x, y) => {
+          acc.undecided(
+            format!("context-width:lhs={},rhs={}", shape(x), shape(y)),
+            &[x, y],
+            "the code rejects a context type with extra entries; DMN accepts it, the property statement is silent".into(),
+          );
+        }
+      }
+      // structural laws between two types of the same constructor
+      match (t, s) {
+        (FeelType::List(a), FeelType::List(b)) => {
+          if a.is_conformant(b) {
+            acc.law("covariance-list");
+            if !cij {
+              acc.violation("covariance:list".to_string(), &[t, s], "element types conform but the list types do not".into());
+            }
+          }
+          acc.calls += 1;
+        }
+        (FeelType::Range(a), FeelType::Range(b)) => {
+          if a.is_conformant(b) {
+            acc.law("covariance-range");
+            if !cij {
+              acc.violation("covariance:range".to_string(), &[t, s], "element types conform but the range types do not".into());
+            }
+          }
+          acc.calls += 1;
+        }
+        (FeelType::Context(ma), FeelType::Context(mb)) => {
+          if ma.len() == mb.len() && ma.keys().all(|k| mb.contains_key(k)) {
+            let mut all = true;
+            for (k, ta) in ma {
+              acc.calls += 1;
+              if !ta.is_conformant(&mb[k]) {
+                all = false;
+                break;
+              }
+            }
+            if all {
+              acc.law("covariance-context");
+              if !cij {
+                acc.violation(
+                  format!("covariance:context-{}-entries", ma.len()),
+                  &[t, s],
+                  "same entry names, every entry type conforms, but the context types do not".into(),
+                );
+              }
+            }
+          }
+        }
+        (FeelType::Function(pa, ra), FeelType::Function(pb, rb)) => {
+          // "function types with different result types are not equivalent whatever their number of parameters"
+          acc.calls += 1;
+          if !ra.is_equivalent(rb) {
+            acc.law("equiv-differs-in-result");
+            if eij {
+              let cls = if pa.len() == pb.len() {
+                format!("function-{}-params", pa.len())
+              } else {
+                format!("function-{}-vs-{}-params", pa.len(), pb.len())
+              };
+              acc.violation(
+                format!("equiv-differs-in-result:{}", cls),
+                &[t, s],
+                "function types whose result types are not equivalent are reported equivalent".into(),
+              );
+            }
+          }
+          if pa.len() == pb.len() {
+            let same_params = (0..pa.len()).all(|k| texts_equal(&pa[k], &pb[k]));
+            let same_result = texts_equal(ra, rb);
+            if same_params && !same_result {
+              acc.calls += 1;
+              if ra.is_conformant(rb) {
+                acc.law("covariance-function-result");
+                if !cij {
+                  acc.violation(
+                    format!("covariance:function-result-{}-params", pa.len()),
+                    &[t, s],
+                    "same parameters, result types conform, but the function types do not".into(),
+                  );
+                }
+              }
+            }
+            if same_result && !same_params {
+              let mut contra = true;
+              for k in 0..pa.len() {
+                acc.calls += 1;
+                if !pb[k].is_conformant(&pa[k]) {
+                  contra = false;
+                  break;
+                }
+              }
+              if contra {
+                acc.law("contravariance-function-parameters");
+                if !cij {
+                  acc.violation(
+                    format!("contravariance:function-parameters-{}-params", pa.len()),
+                    &[t, s],
+                    "same result, every parameter type of S conforms to that of T, but T does not conform to S".into(),
+                  );
+                }
+              }
+            }
+          }
+        }
+        _ => {}
+      }
+    }
+    // ---- ternary laws over the observed matrices: all (j, k) for this i ----
+    w.triples_matrix_covered += (n as u128) * (n as u128);
+    let row_ci = c.row(i);
+    let row_ei = e.row(i);
+    for j in 0..n {
+      if c.get(i, j) {
+        let row_cj = c.row(j);
+        let nv: u64 = row_cj.iter().map(|x| x.count_ones() as u64).sum();
+        w.triples_matrix_nonvacuous += nv;
+        acc.law_n("conf-transitive", nv);
+        if i != j && !matches!(t, FeelType::Null) && w.shape_triples_nonvacuous.len() < 2048 {
+          let key = format!("{}~{}", shapes[i], shapes[j]);
+          if !w.shape_triples_nonvacuous.contains(&key) {
+            w.shape_triples_nonvacuous.insert(key);
+          }
+        }
+        if let Some(k) = first_bit_not_in(row_cj, row_ci) {
+          if k < n {
+            acc.violation(
+              format!("conf-not-transitive:a={},b={},c={}", shapes[i], shapes[j], shapes[k]),
+              &[t, &u[j], &u[k]],
+              "A conforms to B, B conforms to C, but A does not conform to C".into(),
+            );
+          }
+        }
+      }
+      if e.get(i, j) {
+        let row_ej = e.row(j);
+        let nv: u64 = row_ej.iter().map(|x| x.count_ones() as u64).sum();
+        acc.law_n("equiv-transitive", nv);
+        if let Some(k) = first_bit_not_in(row_ej, row_ei) {
+          if k < n {
+            acc.violation(
+              format!("equiv-not-transitive:a={},b={},c={}", shapes[i], shapes[j], shapes[k]),
+              &[t, &u[j], &u[k]],
+              "A equivalent to B, B equivalent to C, but A is not equivalent to C".into(),
+            );
+          }
+        }
+      }
+    }
+  }
+  // ---- sampled triples by DIRECT calls (half of them steered along observed edges) ----
+  let mut rng = Rng::new(seed ^ ((lo as u64) << 32) ^ 0xC16);
+  for _ in 0..direct_triples {
+    if n == 0 {
+      break;
+    }
+    let a = if hi > lo { lo + rng.below(hi - lo) } else { rng.below(n) };
+    let steer = rng.chance(60);
+    let b = if steer { pick_in_row(&c, a, n, &mut rng) } else { rng.below(n) };
+    let cc = if steer { pick_in_row(&c, b, n, &mut rng) } else { rng.below(n) };
+    let ab = u[a].is_conformant(&u[b]);
+    let bc = u[b].is_conformant(&u[cc]);
+    let ac = u[a].is_conformant(&u[cc]);
+    let eab = u[a].is_equivalent(&u[b]);
+    let ebc = u[b].is_equivalent(&u[cc]);
+    let eac = u[a].is_equivalent(&u[cc]);
+    acc.calls += 6;
+    w.triples_direct += 1;
+    acc.law("repeatable");
+    if ab != c.get(a, b) || bc != c.get(b, cc) || ac != c.get(a, cc) || eab != e.get(a, b) || ebc != e.get(b, cc) || eac != e.get(a, cc) {
+      acc.violation(
+        format!("not-repeatable:a={},b={},c={}", shapes[a], shapes[b], shapes[cc]),
+        &[&u[a], &u[b], &u[cc]],
+        "the same question got two different answers in one process".into(),
+      );
+    }
+    if ab && bc {
+      acc.law("conf-transitive-direct");
+      if !ac {
+        acc.violation(
+          format!("conf-not-transitive:a={},b={},c={}", shapes[a], shapes[b], shapes[cc]),
+          &[&u[a], &u[b], &u[cc]],
+          "A conforms to B, B conforms to C, but A does not conform to C".into(),
+        );
+      }
+    }
+    if eab && ebc {
+      acc.law("equiv-transitive-direct");
+      if !eac {
+        acc.violation(
+          format!("equiv-not-transitive:a={},b={},c={}", shapes[a], shapes[b], shapes[cc]),
+          &[&u[a], &u[b], &u[cc]],
+          "A equivalent to B, B equivalent to C, but A is not equivalent to C".into(),
+        );
+      }
+    }
+  }
+  w
+}
+
+fn texts_equal(a: &FeelType, b: &FeelType) -> bool {
+  a.to_string() == b.to_string()
+}
+
+fn pick_in_row(m: &Matrix, i: usize, n: usize, rng: &mut Rng) -> usize {
+  // random start, first set bit after it (wrapping); falls back to a random index
+  let start = rng.below(n);
+  for d in 0..n {
+    let j = (start + d) % n;
+    if m.get(i, j) {
+      // skip the trivial top/bottom/self edges half of the time so that structural edges are reached
+      if j == i && rng.chance(80) {
+        continue;
+      }
+      return j;
+    }
+  }
+  start
+}
+
+fn walk_to_json(w: &Walk, acc: &Acc) -> J {
+  let mut out = Map::new();
+  out.insert("n_types".to_string(), json!(w.n));
+  out.insert("duplicate_calls".to_string(), json!(w.duplicate_calls));
+  out.insert("rows".to_string(), json!([w.rows.0, w.rows.1]));
+  out.insert("pairs".to_string(), json!(w.pairs));
+  out.insert("triples_matrix_covered".to_string(), json!(w.triples_matrix_covered.to_string()));
+  out.insert("triples_matrix_nonvacuous".to_string(), json!(w.triples_matrix_nonvacuous));
+  out.insert("triples_direct".to_string(), json!(w.triples_direct));
+  out.insert("conf_true".to_string(), json!(w.conf_true));
+  out.insert("equiv_true".to_string(), json!(w.equiv_true));
+  out.insert("shape_pairs".to_string(), json!(w.shape_pairs.iter().collect::<Vec<_>>()));
+  out.insert("shape_edges_nonvacuous".to_string(), json!(w.shape_triples_nonvacuous.iter().collect::<Vec<_>>()));
+  acc.to_json(&mut out);
+  J::Object(out)
+}
+
+// =================================================================================================
+// depth-2 sampled families
+// =================================================================================================
+
+fn rand_simple(rng: &mut Rng, pool: &[FeelType]) -> FeelType {
+  pool[rng.below(pool.len())].clone()
+}
+
+fn rand_constructed(rng: &mut Rng, comp: &mut dyn FnMut(&mut Rng) -> FeelType) -> FeelType {
+  match rng.below(10) {
+    0 | 1 => FeelType::List(Box::new(comp(rng))),
+    2 => FeelType::Range(Box::new(comp(rng))),
+    3 | 4 | 5 => match rng.below(4) {
+      0 => ctx_type(vec![]),
+      1 => ctx_type(vec![(name_a(), comp(rng))]),
+      2 => ctx_type(vec![(name_b(), comp(rng))]),
+      _ => ctx_type(vec![(name_a(), comp(rng)), (name_b(), comp(rng))]),
+    },
+    _ => match rng.below(3) {
+      0 => FeelType::Function(vec![], Box::new(comp(rng))),
+      1 => FeelType::Function(vec![comp(rng)], Box::new(comp(rng))),
+      _ => FeelType::Function(vec![comp(rng), comp(rng)], Box::new(comp(rng))),
+    },
+  }
+}
+
+fn rand_depth1(rng: &mut Rng, pool: &[FeelType]) -> FeelType {
+  let mut leaf = |r: &mut Rng| rand_simple(r, pool);
+  rand_constructed(rng, &mut leaf)
+}
+
+fn rand_depth2(rng: &mut Rng, pool: &[FeelType]) -> FeelType {
+  let mut comp = |r: &mut Rng| if r.chance(35) { rand_simple(r, pool) } else { rand_depth1(r, pool) };
+  rand_constructed(rng, &mut comp)
+}
+
+fn count_nodes(t: &FeelType) -> usize {
+  match t {
+    FeelType::List(x) | FeelType::Range(x) => 1 + count_nodes(x),
+    FeelType::Context(m) => 1 + m.values().map(count_nodes).sum::<usize>(),
+    FeelType::Function(ps, r) => 1 + ps.iter().map(count_nodes).sum::<usize>() + count_nodes(r),
+    _ => 1,
+  }
+}
+
+/// Replaces / tweaks the node with preorder index `target`; never increases the depth.
+fn mutate_at(t: &FeelType, counter: &mut usize, target: usize, rng: &mut Rng, pool: &[FeelType]) -> FeelType {
+  let here = *counter;
+  *counter += 1;
+  if here == target {
+    return match rng.below(10) {
+      0 | 1 => FeelType::Null,
+      2 | 3 => FeelType::Any,
+      4 | 5 => rand_simple(rng, pool),
+      _ => tweak(t, rng, pool),
+    };
+  }
+  match t {
+    FeelType::List(x) => FeelType::List(Box::new(mutate_at(x, counter, target, rng, pool))),
+    FeelType::Range(x) => FeelType::Range(Box::new(mutate_at(x, counter, target, rng, pool))),
+    FeelType::Context(m) => {
+      let mut out = BTreeMap::new();
+      for (k, v) in m {
+        out.insert(k.clone(), mutate_at(v, counter, target, rng, pool));
+      }
+      FeelType::Context(out)
+    }
+    FeelType::Function(ps, r) => {
+      let nps: Vec<FeelType> = ps.iter().map(|p| mutate_at(p, counter, target, rng, pool)).collect();
+      let nr = mutate_at(r, counter, target, rng, pool);
+      FeelType::Function(nps, Box::new(nr))
+    }
+    other => other.clone(),
+  }
+}
+
+fn tweak(t: &FeelType, rng: &mut Rng, pool: &[FeelType]) -> FeelType {
+  match t {
+    FeelType::List(x) => {
+      if rng.chance(50) {
+        FeelType::Range(x.clone())
+      } else {
+        (**x).clone()
+      }
+    }
+    FeelType::Range(x) => {
+      if rng.chance(50) {
+        FeelType::List(x.clone())
+      } else {
+        (**x).clone()
+      }
+    }
+    FeelType::Context(m) => {
+      let mut out = m.clone();
+      let keys: Vec<Name> = m.keys().cloned().collect();
+      if !keys.is_empty() && rng.chance(50) {
+        out.remove(&keys[rng.below(keys.len())]);
+      } else {
+        for k in [name_a(), name_b()] {
+          if !out.contains_key(&k) {
+            out.insert(k, rand_simple(rng, pool));
+            break;
+          }
+        }
+      }
+      FeelType::Context(out)
+    }
+    FeelType::Function(ps, r) => {
+      let mut nps = ps.clone();
+      if !nps.is_empty() && rng.chance(50) {
+        nps.pop();
+      } else if nps.len() < 2 {
+        nps.push(rand_simple(rng, pool));
+      } else {
+        nps.swap(0, 1);
+      }
+      FeelType::Function(nps, r.clone())
+    }
+    _ => rand_simple(rng, pool),
+  }
+}
+
+fn mutate(t: &FeelType, rng: &mut Rng, pool: &[FeelType]) -> FeelType {
+  let n = count_nodes(t);
+  let target = rng.below(n);
+  let mut counter = 0;
+  mutate_at(t, &mut counter, target, rng, pool)
+}
+
+fn gen_sample(seed: u64, size: usize) -> Vec<FeelType> {
+  let mut rng = Rng::new(seed);
+  let simple: Vec<FeelType> = SIMPLE_NAMES.iter().map(|s| simple_by_name(s).unwrap()).collect();
+  let mut seen: BTreeSet<String> = BTreeSet::new();
+  let mut out: Vec<FeelType> = vec![];
+  let mut push = |t: FeelType, out: &mut Vec<FeelType>| {
+    if depth_of(&t) <= 2 {
+      let key = t.to_string();
+      if !seen.contains(&key) {
+        seen.insert(key);
+        out.push(t);
+      }
+    }
+  };
+  for s in &simple {
+    push(s.clone(), &mut out);
+  }
+  let mut guard = 0;
+  while out.len() < size && guard < 100_000 {
+    guard += 1;
+    // leaf pool of this family: Any, Null and two ordinary simple types
+    let mut pool = vec![FeelType::Any, FeelType::Null];
+    pool.push(simple[2 + rng.below(8)].clone());
+    pool.push(simple[2 + rng.below(8)].clone());
+    let t0 = rand_depth2(&mut rng, &pool);
+    push(t0.clone(), &mut out);
+    for _ in 0..20 {
+      let m = mutate(&t0, &mut rng, &pool);
+      push(m, &mut out);
+    }
+    for _ in 0..8 {
+      let m = mutate(&mutate(&t0, &mut rng, &pool), &mut rng, &pool);
+      push(m, &mut out);
+    }
+  }
+  out.truncate(size.max(10));
+  out
+}
+
+// =================================================================================================
+// op: types
+// =================================================================================================
+
+fn rows_of(case: &J, n: usize) -> (usize, usize) {
+  match case.get("rows").and_then(|v| v.as_array()) {
+    Some(r) if r.len() == 2 => (r[0].as_u64().unwrap_or(0) as usize, r[1].as_u64().unwrap_or(n as u64) as usize),
+    _ => (0, n),
+  }
+}
+
+pub fn op_types(case: &J) -> J {
+  let mode = case.get("mode").and_then(|v| v.as_str()).unwrap_or("universe");
+  let seed = case.get("seed").and_then(|v| v.as_u64()).unwrap_or(1);
+  let direct = case.get("direct_triples").and_then(|v| v.as_u64()).unwrap_or(0) as usize;
+  match mode {
+    "universe" => {
+      let u = match build_universe(case) {
+        Ok(u) => u,
+        Err(e) => return json!({ "harness_error": e }),
+      };
+      if case.get("count_only").and_then(|v| v.as_bool()).unwrap_or(false) {
+        return json!({"n_types": u.len()});
+      }
+      let rows = rows_of(case, u.len());
+      let mut acc = Acc::default();
+      let w = walk(&u, rows, direct, seed, &mut acc);
+      walk_to_json(&w, &acc)
+    }
+    "sample" => {
+      let size = case.get("size").and_then(|v| v.as_u64()).unwrap_or(300) as usize;
+      let u = gen_sample(seed, size);
+      let mut acc = Acc::default();
+      let w = walk(&u, (0, u.len()), direct, seed, &mut acc);
+      let mut j = walk_to_json(&w, &acc);
+      let d2 = u.iter().filter(|t| depth_of(t) == 2).count();
+      j["depth2_types"] = json!(d2);
+      j["first_types"] = json!(u.iter().skip(10).take(4).map(|t| t.to_string()).collect::<Vec<_>>());
+      j
+    }
+    "probe" => {
+      let empty = vec![];
+      let mut u = vec![];
+      for tj in case.get("types").and_then(|v| v.as_array()).unwrap_or(&empty) {
+        match type_from_json(tj) {
+          Ok(t) => u.push(t),
+          Err(e) => return json!({ "harness_error": e }),
+        }
+      }
+      let mut acc = Acc::default();
+      let w = walk(&u, (0, u.len()), 0, seed, &mut acc);
+      let mut j = walk_to_json(&w, &acc);
+      let n = u.len();
+      let mut conf = vec![];
+      let mut equiv = vec![];
+      let mut rconf = vec![];
+      let mut requiv = vec![];
+      for a in 0..n {
+        let mut r1 = vec![];
+        let mut r2 = vec![];
+        let mut r3 = vec![];
+        let mut r4 = vec![];
+        for b in 0..n {
+          r1.push(u[a].is_conformant(&u[b]));
+          r2.push(u[a].is_equivalent(&u[b]));
+          r3.push(format!("{:?}", reference::conf(&u[a], &u[b])));
+          r4.push(reference::equiv(&u[a], &u[b]));
+        }
+        conf.push(r1);
+        equiv.push(r2);
+        rconf.push(r3);
+        requiv.push(r4);
+      }
+      j["text"] = json!(u.iter().map(|t| t.to_string()).collect::<Vec<_>>());
+      j["is_conformant"] = json!(conf);
+      j["is_equivalent"] = json!(equiv);
+      j["reference_conformant"] = json!(rconf);
+      j["reference_equivalent"] = json!(requiv);
+      j
+    }
+    other => json!({ "harness_error": format!("types: unknown mode '{}'", other) }),
+  }
+}
+
+// =================================================================================================
+// op: coerce — values x target types
+// =================================================================================================
+
+fn v_num(n: i128) -> Value {
+  Value::Number(dmntk_feel::FeelNumber::from_i128(n))
+}
+
+fn v_simple(t: &FeelType) -> Value {
+  let via = |j: J| crate::vj::to_value(&j).expect("harness: cannot build inhabitant");
+  match t {
+    FeelType::Any => Value::String("any".to_string()),
+    FeelType::Null => Value::Null(None),
+    FeelType::Boolean => Value::Boolean(true),
+    FeelType::Number => v_num(1),
+    FeelType::String => Value::String("s".to_string()),
+    FeelType::Date => via(json!({"d": "2021-02-03"})),
+    FeelType::Time => via(json!({"t": "10:11:12"})),
+    FeelType::DateTime => via(json!({"dt": "2021-02-03T10:11:12"})),
+    FeelType::DaysAndTimeDuration => via(json!({"dtd": "P1DT2H"})),
+    FeelType::YearsAndMonthsDuration => via(json!({"ymd": "P1Y2M"})),
+    _ => unreachable!(),
+  }
+}
+
+/// One inhabitant of the type: a value whose `type_of` ought to conform to `t` (and equal it
+/// whenever `t` has no `Any` inside).
+fn inhabitant(t: &FeelType) -> Value {
+  match t {
+    FeelType::List(x) => match **x {
+      FeelType::Any => Value::List(Values::new(vec![v_num(1), Value::String("s".to_string())])),
+      _ => Value::List(Values::new(vec![inhabitant(x), inhabitant(x)])),
+    },
+    FeelType::Range(x) => match **x {
+      FeelType::Any => Value::Range(Box::new(v_num(1)), true, Box::new(Value::String("s".to_string())), true),
+      _ => Value::Range(Box::new(inhabitant(x)), true, Box::new(inhabitant(x)), true),
+    },
+    FeelType::Context(m) => {
+      let mut ctx = FeelContext::default();
+      for (k, v) in m {
+        ctx.set_entry(k, inhabitant(v));
+      }
+      Value::Context(ctx)
+    }
+    FeelType::Function(ps, r) => {
+      let params: Vec<(Name, FeelType)> = ps.iter().enumerate().map(|(k, p)| (Name::from(format!("p{}", k + 1).as_str()), p.clone())).collect();
+      let body = FunctionBody::LiteralExpression(Arc::new(Box::new(|_: &Scope| Value::Null(None))));
+      Value::FunctionDefinition(params, body, (**r).clone())
+    }
+    simple => v_simple(simple),
+  }
+}
+
+fn same_value(a: &Value, b: &Value) -> bool {
+  match (a, b) {
+    (Value::Null(_), Value::Null(_)) => true,
+    _ => a == b && format!("{:?}", a) == format!("{:?}", b),
+  }
+}
+
+fn show(v: &Value) -> String {
+  let s = match v {
+    Value::FunctionDefinition(..) => format!("<function value of type {}>", v.type_of()),
+    other => other.to_string(),
+  };
+  if s.len() > 160 {
+    format!("{}…", &s[..150])
+  } else {
+    s
+  }
+}
+
+struct CoerceAcc {
+  checked: BTreeMap<&'static str, u64>,
+  viol: BTreeMap<String, (u64, Vec<J>)>,
+  undecided: BTreeMap<String, (u64, Vec<J>)>,
+  outcomes: BTreeMap<&'static str, u64>,
+  classes: BTreeSet<String>,
+  calls: u64,
+}
+
+impl CoerceAcc {
+  fn bad(&mut self, key: String, vdesc: &J, v: &Value, t: &FeelType, got: &Value, want: &str) {
+    let e = self.viol.entry(key).or_insert((0, vec![]));
+    e.0 += 1;
+    let plain = |s: &str| !s.contains("Null") && !s.contains("Any") && !s.contains("null");
+    let (vt, tt) = (show(v), t.to_string());
+    let upgrade = e.1.len() == MAX_EXAMPLES && plain(&vt) && plain(&tt) && !(plain(e.1[0]["value_text"].as_str().unwrap_or("")) && plain(e.1[0]["target_text"].as_str().unwrap_or("")));
+    if e.1.len() < MAX_EXAMPLES || upgrade {
+      let ex = json!({
+        "value": vdesc, "value_text": vt, "value_type": v.type_of().to_string(),
+        "target": type_to_json(t), "target_text": tt,
+        "observed": show(got), "expected": want,
+      });
+      if upgrade {
+        e.1[0] = ex;
+      } else {
+        e.1.push(ex);
+      }
+    }
+  }
+}
+
+/// The rule of the property statement, decided with the implementation's own `is_conformant`
+/// (which is checked separately against the reference) and the harness' own reading of the value.
+/// `got` is what the code under test returned for value `v` and target `t` (by `coerced` directly,
+/// or through a FEEL invocation when `prefix` is "feel-").
+fn classify_coercion(prefix: &str, vdesc: &J, v: &Value, t: &FeelType, got: &Value, acc: &mut CoerceAcc) {
+  let tv = v.type_of();
+  let cls = format!("value={},target={}", shape(&tv), shape(t));
+  if acc.classes.len() < 4096 && !acc.classes.contains(&cls) {
+    acc.classes.insert(cls.clone());
+  }
+  let conforms = tv.is_conformant(t);
+  let wrap_ok = match t {
+    FeelType::List(el) => tv.is_conformant(el),
+    _ => false,
+  };
+  let unwrapped: Option<&Value> = match v {
+    Value::List(items) if items.as_vec().len() == 1 => Some(&items.as_vec()[0]),
+    _ => None,
+  };
+  let unwrap_ok = match unwrapped {
+    Some(x) => x.type_of().is_conformant(t),
+    None => false,
+  };
+  *acc.checked.entry("coercion-rule").or_insert(0) += 1;
+  if conforms {
+    *acc.outcomes.entry("identity").or_insert(0) += 1;
+    if !same_value(got, v) {
+      acc.bad(format!("{}coerce-not-identity:{}", prefix, cls), vdesc, v, t, got, "the value itself (its type conforms)");
+    }
+  } else if wrap_ok && unwrap_ok {
+    // both conversions apply: the statement does not rank them
+    let wrapped = Value::List(Values::new(vec![v.clone()]));
+    if same_value(got, &wrapped) || same_value(got, unwrapped.unwrap()) {
+      let e = acc.undecided.entry(format!("wrap-and-unwrap-both-apply:{}", cls)).or_insert((0, vec![]));
+      e.0 += 1;
+      if e.1.len() < MAX_EXAMPLES {
+        e.1.push(json!({"value": vdesc, "value_text": show(v), "target_text": t.to_string(), "observed": show(got)}));
+      }
+      *acc.outcomes.entry("ambiguous").or_insert(0) += 1;
+    } else {
+      acc.bad(format!("{}coerce-neither-wrap-nor-unwrap:{}", prefix, cls), vdesc, v, t, got, "singleton wrap or unwrap (both conform)");
+    }
+  } else if wrap_ok {
+    *acc.outcomes.entry("wrap").or_insert(0) += 1;
+    let wrapped = Value::List(Values::new(vec![v.clone()]));
+    if !same_value(got, &wrapped) {
+      acc.bad(format!("{}coerce-wrap-expected:{}", prefix, cls), vdesc, v, t, got, "[value] (the value's type conforms to the element type)");
+    }
+  } else if unwrap_ok {
+    *acc.outcomes.entry("unwrap").or_insert(0) += 1;
+    if !same_value(got, unwrapped.unwrap()) {
+      acc.bad(format!("{}coerce-unwrap-expected:{}", prefix, cls), vdesc, v, t, got, "the single element (its type conforms to the target)");
+    }
+  } else {
+    *acc.outcomes.entry("null").or_insert(0) += 1;
+    if !got.is_null() {
+      acc.bad(format!("{}coerce-null-expected:{}", prefix, cls), vdesc, v, t, got, "null (nothing conforms)");
+    }
+  }
+  // independent of type_of / is_conformant: a value built for type T0 inhabits every S that T0 conforms
+  // to BY THE REFERENCE, so coercing it to S must return the value itself
+  if let Some(t0) = built_for(vdesc) {
+    if reference::conf(&t0, t) == V3::Yes {
+      *acc.checked.entry("inhabitant-kept").or_insert(0) += 1;
+      if !same_value(got, v) {
+        acc.bad(
+          format!("{}coerce-inhabitant-not-kept:built-for={},target={}", prefix, shape(&t0), shape(t)),
+          vdesc,
+          v,
+          t,
+          got,
+          &format!("the value itself: it was built as an inhabitant of {} which conforms to the target by DMN 10.3.2.9.2", t0),
+        );
+      }
+    }
+  }
+  // result conforms to the target or is null
+  *acc.checked.entry("result-conforms-or-null").or_insert(0) += 1;
+  if !got.is_null() && !got.type_of().is_conformant(t) {
+    acc.bad(format!("{}coerce-result-not-conformant:{}", prefix, cls), vdesc, v, t, got, "a value whose type conforms to the target, or null");
+  }
+}
+
+fn record_panic(prefix: &str, vdesc: &J, v: &Value, t: &FeelType, second: bool, acc: &mut CoerceAcc) {
+  let p = crate::LAST_PANIC.lock().ok().and_then(|mut g| g.take()).unwrap_or(json!({"msg": "<unknown>"}));
+  let cls = format!("value={},target={}", shape(&v.type_of()), shape(t));
+  let e = acc.viol.entry(format!("{}coerce-panic:{}", prefix, cls)).or_insert((0, vec![]));
+  e.0 += 1;
+  if e.1.len() < MAX_EXAMPLES {
+    e.1.push(json!({"value": vdesc, "target": type_to_json(t), "target_text": t.to_string(), "panic": p, "second": second}));
+  }
+}
+
+fn check_coercion(vdesc: &J, v: &Value, t: &FeelType, acc: &mut CoerceAcc) {
+  let r = std::panic::catch_unwind(std::panic::AssertUnwindSafe(|| t.coerced(v)));
+  acc.calls += 1;
+  let got = match r {
+    Ok(g) => g,
+    Err(_) => {
+      record_panic("", vdesc, v, t, false, acc);
+      return;
+    }
+  };
+  classify_coercion("", vdesc, v, t, &got, acc);
+  // coercing twice changes nothing
+  *acc.checked.entry("idempotent").or_insert(0) += 1;
+  let again = std::panic::catch_unwind(std::panic::AssertUnwindSafe(|| t.coerced(&got)));
+  acc.calls += 1;
+  match again {
+    Ok(g2) => {
+      if !same_value(&g2, &got) {
+        let cls = format!("value={},target={}", shape(&v.type_of()), shape(t));
+        acc.bad(format!("coerce-not-idempotent:{}", cls), vdesc, v, t, &g2, &format!("{} again (first coercion gave that)", show(&got)));
+      }
+    }
+    Err(_) => record_panic("", vdesc, v, t, true, acc),
+  }
+}
+
+// ---------------------------------------------------------------------------------------------
+// the same rule observed through FEEL invocations: `(function(x: T) x)(v)` (positional and named),
+// parsed and evaluated by the real parser / evaluator (builders.rs eval_function_positional/_named)
+// ---------------------------------------------------------------------------------------------
+
+fn feel_simple_literal(t: &FeelType) -> &'static str {
+  match t {
+    FeelType::Any => "\"any\"",
+    FeelType::Null => "null",
+    FeelType::Boolean => "true",
+    FeelType::Number => "1",
+    FeelType::String => "\"s\"",
+    FeelType::Date => "date(\"2021-02-03\")",
+    FeelType::Time => "time(\"10:11:12\")",
+    FeelType::DateTime => "date and time(\"2021-02-03T10:11:12\")",
+    FeelType::DaysAndTimeDuration => "duration(\"P1DT2H\")",
+    FeelType::YearsAndMonthsDuration => "duration(\"P1Y2M\")",
+    _ => unreachable!(),
+  }
+}
+
+/// FEEL text denoting `inhabitant(t)`; None when FEEL has no literal for it.
+fn feel_literal(t: &FeelType) -> Option<String> {
+  match t {
+    FeelType::List(x) => match **x {
+      FeelType::Any => Some("[1, \"s\"]".to_string()),
+      _ => feel_literal(x).map(|s| format!("[{}, {}]", s, s)),
+    },
+    FeelType::Range(x) => match **x {
+      FeelType::Number | FeelType::String | FeelType::Date | FeelType::Time | FeelType::DateTime | FeelType::DaysAndTimeDuration | FeelType::YearsAndMonthsDuration => {
+        feel_literal(x).map(|s| format!("[{}..{}]", s, s))
+      }
+      _ => None,
+    },
+    FeelType::Context(m) => {
+      let mut parts = vec![];
+      for (k, v) in m {
+        parts.push(format!("{}: {}", k, feel_literal(v)?));
+      }
+      Some(format!("{{{}}}", parts.join(", ")))
+    }
+    FeelType::Function(ps, r) => {
+      if !matches!(**r, FeelType::Any) || ps.iter().any(|p| p.to_string().contains("context<>")) {
+        return None; // functions defined in FEEL always have result type Any
+      }
+      let params: Vec<String> = ps.iter().enumerate().map(|(k, p)| format!("p{}: {}", k + 1, p)).collect();
+      Some(format!("function({}) null", params.join(", ")))
+    }
+    simple => Some(feel_simple_literal(simple).to_string()),
+  }
+}
+
+fn feel_eval(text: &str) -> Result<Value, String> {
+  let scope = Scope::default();
+  let node = crate::ops_feel::parse_entry(&scope, "expr", text, None).map_err(|e| format!("parse: {}", e))?;
+  let ev = dmntk_feel_evaluator::prepare(&node).map_err(|e| format!("prepare: {}", e))?;
+  Ok(ev(&scope))
+}
+
+/// value description: {"of": <type json>, "wrap": k} = inhabitant of the type wrapped k times in a
+/// singleton list, or {"of":.., "twice": true} = two-element list of the inhabitant, or {"lit": <value json>}.
+fn value_from_desc(d: &J) -> Result<Value, String> {
+  if let Some(l) = d.get("lit") {
+    return crate::vj::to_value(l);
+  }
+  let t = type_from_json(d.get("of").ok_or("value description without 'of'")?)?;
+  if d.get("empty").and_then(|x| x.as_bool()).unwrap_or(false) {
+    return match t {
+      FeelType::List(_) => Ok(Value::List(Values::new(vec![]))),
+      _ => Err("'empty' needs a list type".to_string()),
+    };
+  }
+  let mut v = inhabitant(&t);
+  if d.get("twice").and_then(|x| x.as_bool()).unwrap_or(false) {
+    v = Value::List(Values::new(vec![v.clone(), v]));
+  }
+  for _ in 0..d.get("wrap").and_then(|x| x.as_u64()).unwrap_or(0) {
+    v = Value::List(Values::new(vec![v]));
+  }
+  Ok(v)
+}
+
+/// The type the described value was BUILT FOR (it inhabits that type by construction): the type
+/// itself, list<type> for the two-element list, list^k<type> for k singleton wraps, the list type
+/// for the empty list. None for free literals.
+fn built_for(d: &J) -> Option<FeelType> {
+  let mut t = type_from_json(d.get("of")?).ok()?;
+  if d.get("empty").and_then(|x| x.as_bool()).unwrap_or(false) {
+    return Some(t);
+  }
+  if d.get("twice").and_then(|x| x.as_bool()).unwrap_or(false) {
+    t = FeelType::List(Box::new(t));
+  }
+  for _ in 0..d.get("wrap").and_then(|x| x.as_u64()).unwrap_or(0) {
+    t = FeelType::List(Box::new(t));
+  }
+  Some(t)
+}
+
+fn value_pool(u: &[FeelType]) -> Vec<J> {
+  let mut out = vec![];
+  for t in u {
+    let tj = type_to_json(t);
+    out.push(json!({"of": tj, "wrap": 0}));
+    out.push(json!({"of": tj, "wrap": 1}));
+    out.push(json!({"of": tj, "twice": true}));
+  }
+  // the empty list inhabits every list type
+  for t in u.iter().filter(|t| matches!(t, FeelType::List(_))) {
+    out.push(json!({"of": type_to_json(t), "empty": true}));
+  }
+  // extra literals: empty / heterogeneous / nested singleton lists
+  for lit in [
+    json!([]),
+    json!([[]]),
+    json!([[[]]]),
+    json!([null]),
+    json!([[null]]),
+    json!([{"n": "1"}, null]),
+    json!([{"n": "1"}, {"s": "a"}]),
+    json!([[{"n": "1"}]]),
+    json!([[[{"n": "1"}]]]),
+    json!([[{"n": "1"}, {"n": "2"}]]),
+    json!([[{"n": "1"}], [{"n": "2"}]]),
+    json!([{"c": []}]),
+    json!([{"c": [["a", {"n": "1"}], ["b", {"s": "x"}]]}]),
+    json!({"c": [["a", [{"n": "1"}]]]}),
+    json!({"r": [{"n": "1"}, true, {"n": "2"}, true]}),
+    json!([{"r": [{"n": "1"}, true, {"n": "2"}, true]}]),
+  ] {
+    out.push(json!({ "lit": lit }));
+  }
+  out
+}
+
+pub fn op_coerce(case: &J) -> J {
+  let mode = case.get("mode").and_then(|v| v.as_str()).unwrap_or("universe");
+  let mut acc = CoerceAcc {
+    checked: BTreeMap::new(),
+    viol: BTreeMap::new(),
+    undecided: BTreeMap::new(),
+    outcomes: BTreeMap::new(),
+    classes: BTreeSet::new(),
+    calls: 0,
+  };
+  let mut typeof_checked = 0u64;
+  let mut n_values = 0usize;
+  let mut n_targets = 0usize;
+  let mut pool_size = 0usize;
+  match mode {
+    "universe" => {
+      let u = match build_universe(case) {
+        Ok(u) => u,
+        Err(e) => return json!({ "harness_error": e }),
+      };
+      // targets: the universe plus list<T> of every member (singleton wrap into depth 2)
+      let mut targets = u.clone();
+      let mut seen: BTreeSet<String> = u.iter().map(|t| t.to_string()).collect();
+      for t in &u {
+        let l = FeelType::List(Box::new(t.clone()));
+        let key = l.to_string();
+        if !seen.contains(&key) {
+          seen.insert(key);
+          targets.push(l);
+        }
+      }
+      let pool = value_pool(&u);
+      pool_size = pool.len();
+      let (lo, hi) = rows_of(case, pool.len());
+      let (lo, hi) = (lo.min(pool.len()), hi.min(pool.len()));
+      n_values = hi - lo;
+      n_targets = targets.len();
+      if case.get("count_only").and_then(|v| v.as_bool()).unwrap_or(false) {
+        return json!({"n_values": pool.len(), "n_targets": targets.len()});
+      }
+      for d in &pool[lo..hi] {
+        let v = match value_from_desc(d) {
+          Ok(v) => v,
+          Err(e) => return json!({ "harness_error": e }),
+        };
+        // the inhabitant's type must conform to the type it was built for (reference verdict)
+        if let Some(of) = d.get("of") {
+          if d.get("wrap").and_then(|x| x.as_u64()).unwrap_or(0) == 0
+            && !d.get("twice").and_then(|x| x.as_bool()).unwrap_or(false)
+            && !d.get("empty").and_then(|x| x.as_bool()).unwrap_or(false)
+          {
+            let t = type_from_json(of).unwrap();
+            let tv = v.type_of();
+            typeof_checked += 1;
+            let exact_expected = !t.to_string().contains("Any");
+            let ok = if exact_expected { reference::equiv(&tv, &t) } else { reference::conf(&tv, &t) == V3::Yes };
+            if !ok {
+              let e = acc.viol.entry(format!("typeof-mismatch:{}", shape(&t))).or_insert((0, vec![]));
+              e.0 += 1;
+              if e.1.len() < MAX_EXAMPLES {
+                e.1.push(json!({"value": d, "value_text": show(&v), "built_for": t.to_string(), "type_of": tv.to_string()}));
+              }
+            }
+          }
+        }
+        for t in &targets {
+          check_coercion(d, &v, t, &mut acc);
+        }
+      }
+    }
+    "feel" => {
+      let u = match build_universe(case) {
+        Ok(u) => u,
+        Err(e) => return json!({ "harness_error": e }),
+      };
+      let stride = case.get("target_stride").and_then(|v| v.as_u64()).unwrap_or(1).max(1) as usize;
+      let seed = case.get("seed").and_then(|v| v.as_u64()).unwrap_or(1) as usize;
+      // values: every form of every type of the universe that FEEL can write down
+      let mut pool: Vec<(J, String)> = vec![];
+      for t in &u {
+        if let Some(text) = feel_literal(t) {
+          let tj = type_to_json(t);
+          pool.push((json!({"of": tj, "wrap": 0}), text.clone()));
+          pool.push((json!({"of": tj, "wrap": 1}), format!("[{}]", text)));
+          pool.push((json!({"of": tj, "twice": true}), format!("[{}, {}]", text, text)));
+        }
+      }
+      for t in u.iter().filter(|t| matches!(t, FeelType::List(_))) {
+        pool.push((json!({"of": type_to_json(t), "empty": true}), "[]".to_string()));
+      }
+      for (lit, text) in [
+        (json!([]), "[]"),
+        (json!([[]]), "[[]]"),
+        (json!([null]), "[null]"),
+        (json!([[{"n": "1"}]]), "[[1]]"),
+        (json!([[[{"n": "1"}]]]), "[[[1]]]"),
+        (json!([[{"n": "1"}, {"n": "2"}]]), "[[1, 2]]"),
+        (json!([{"c": [["a", {"n": "1"}], ["b", {"s": "x"}]]}]), "[{a: 1, b: \"x\"}]"),
+      ] {
+        pool.push((json!({ "lit": lit }), text.to_string()));
+      }
+      // targets: everything the FEEL grammar can spell (`context<>` has no spelling), plus list<T>
+      let mut targets: Vec<FeelType> = u.iter().filter(|t| !t.to_string().contains("context<>")).cloned().collect();
+      let lists: Vec<FeelType> = targets.iter().filter(|t| depth_of(t) == 1).map(|t| FeelType::List(Box::new(t.clone()))).collect();
+      targets.extend(lists);
+      let (lo, hi) = rows_of(case, pool.len());
+      let (lo, hi) = (lo.min(pool.len()), hi.min(pool.len()));
+      if case.get("count_only").and_then(|v| v.as_bool()).unwrap_or(false) {
+        return json!({"n_values": pool.len(), "n_targets": targets.len()});
+      }
+      n_values = hi - lo;
+      n_targets = targets.len();
+      let mut literal_differs = vec![];
+      let mut eval_errors: Vec<J> = vec![];
+      let mut n_eval_errors = 0u64;
+      let mut named = 0u64;
+      let mut positional = 0u64;
+      for (vi, (d, vtext)) in pool[lo..hi].iter().enumerate() {
+        let built = match value_from_desc(d) {
+          Ok(v) => v,
+          Err(e) => return json!({ "harness_error": e }),
+        };
+        let v = match feel_eval(vtext) {
+          Ok(v) => v,
+          Err(e) => {
+            literal_differs.push(json!({"text": vtext, "error": e}));
+            continue;
+          }
+        };
+        if !same_value(&v, &built) {
+          literal_differs.push(json!({"text": vtext, "evaluated": show(&v), "built": show(&built)}));
+          continue;
+        }
+        let offset = (lo + vi + seed) % stride;
+        for (ti, t) in targets.iter().enumerate() {
+          if ti % stride != offset {
+            continue;
+          }
+          let use_named = (ti / stride + vi) % 2 == 1;
+          let text = if use_named {
+            named += 1;
+            format!("(function(x: {}) x)(x: {})", t, vtext)
+          } else {
+            positional += 1;
+            format!("(function(x: {}) x)({})", t, vtext)
+          };
+          let mut vd = d.clone();
+          vd["feel"] = json!(text);
+          let r = std::panic::catch_unwind(std::panic::AssertUnwindSafe(|| feel_eval(&text)));
+          acc.calls += 1;
+          match r {
+            Ok(Ok(got)) => classify_coercion("feel-", &vd, &v, t, &got, &mut acc),
+            Ok(Err(e)) => {
+              n_eval_errors += 1;
+              if eval_errors.len() < 5 {
+                eval_errors.push(json!({"text": text, "error": e}));
+              }
+            }
+            Err(_) => record_panic("feel-", &vd, &v, t, false, &mut acc),
+          }
+        }
+      }
+      let viol: Map<String, J> = acc.viol.iter().map(|(k, (n, ex))| (k.clone(), json!({"n": n, "ex": ex}))).collect();
+      let und: Map<String, J> = acc.undecided.iter().map(|(k, (n, ex))| (k.clone(), json!({"n": n, "ex": ex}))).collect();
+      return json!({
+        "n_values": n_values, "n_targets": n_targets, "pool": pool.len(), "calls": acc.calls, "named": named, "positional": positional,
+        "literal_differs": literal_differs, "eval_errors": eval_errors, "n_eval_errors": n_eval_errors,
+        "laws": acc.checked.iter().map(|(k, v)| (k.to_string(), json!(v))).collect::<Map<String, J>>(),
+        "outcomes": acc.outcomes.iter().map(|(k, v)| (k.to_string(), json!(v))).collect::<Map<String, J>>(),
+        "classes": acc.classes.len(),
+        "viol": viol, "undecided": und,
+      });
+    }
+    "probe" => {
+      let d = case.get("value").cloned().unwrap_or(J::Null);
+      let v = match value_from_desc(&d) {
+        Ok(v) => v,
+        Err(e) => return json!({ "harness_error": e }),
+      };
+      let t = match type_from_json(case.get("target").unwrap_or(&J::Null)) {
+        Ok(t) => t,
+        Err(e) => return json!({ "harness_error": e }),
+      };
+      n_values = 1;
+      n_targets = 1;
+      check_coercion(&d, &v, &t, &mut acc);
+      let mut feel_observed = J::Null;
+      if let Some(text) = d.get("feel").and_then(|x| x.as_str()) {
+        match feel_eval(text) {
+          Ok(g) => {
+            classify_coercion("feel-", &d, &v, &t, &g, &mut acc);
+            feel_observed = json!({"text": text, "value": show(&g)});
+          }
+          Err(e) => feel_observed = json!({"text": text, "error": e}),
+        }
+      }
+      let got = t.coerced(&v);
+      let viol: Map<String, J> = acc.viol.iter().map(|(k, (n, ex))| (k.clone(), json!({"n": n, "ex": ex}))).collect();
+      return json!({
+        "value_text": show(&v), "value_type": v.type_of().to_string(), "target_text": t.to_string(),
+        "coerced": show(&got), "coerced_json": crate::vj::from_value(&got), "feel": feel_observed, "viol": viol,
+      });
+    }
+    other => return json!({ "harness_error": format!("coerce: unknown mode '{}'", other) }),
+  }
+  let viol: Map<String, J> = acc.viol.iter().map(|(k, (n, ex))| (k.clone(), json!({"n": n, "ex": ex}))).collect();
+  let und: Map<String, J> = acc.undecided.iter().map(|(k, (n, ex))| (k.clone(), json!({"n": n, "ex": ex}))).collect();
+  json!({
+    "n_values": n_values, "n_targets": n_targets, "pool": pool_size, "calls": acc.calls, "typeof_checked": typeof_checked,
+    "laws": acc.checked.iter().map(|(k, v)| (k.to_string(), json!(v))).collect::<Map<String, J>>(),
+    "outcomes": acc.outcomes.iter().map(|(k, v)| (k.to_string(), json!(v))).collect::<Map<String, J>>(),
+    "classes": acc.classes.len(),
+    "viol": viol, "undecided": und,
+  })
 }
